@@ -141,6 +141,78 @@ func extractGrpcBroker(p *pkgs, f *facts) {
 	if tokCapC != tokCapS {
 		tokCap = -1
 	}
+	// dialGRPCConn: `opts` is a slice of its own and the caller's variadic slice is only ever spread INTO it
+	optsFresh := false
+	if dg := p.fn("", "dialGRPCConn"); dg != nil && dg.Type.Params != nil {
+		variadic := ""
+		for _, fld := range dg.Type.Params.List {
+			if _, ok := fld.Type.(*ast.Ellipsis); ok && len(fld.Names) == 1 {
+				variadic = fld.Names[0].Name
+			}
+		}
+		ok := variadic != ""
+		fresh := map[string]bool{}
+		ast.Inspect(dg.Body, func(n ast.Node) bool {
+			switch x := n.(type) {
+			case *ast.AssignStmt:
+				for i, l := range x.Lhs {
+					if i >= len(x.Rhs) {
+						continue
+					}
+					name := exprString(l)
+					rhs := x.Rhs[i]
+					isFreshSlice := false
+					switch r := rhs.(type) {
+					case *ast.CallExpr:
+						if id, isId := r.Fun.(*ast.Ident); isId && id.Name == "make" && len(r.Args) >= 1 {
+							_, isFreshSlice = r.Args[0].(*ast.ArrayType)
+						}
+					case *ast.CompositeLit:
+						_, isFreshSlice = r.Type.(*ast.ArrayType)
+					}
+					if isFreshSlice {
+						if x.Tok.String() == ":=" {
+							fresh[name] = true
+						}
+						continue
+					}
+					if id, isId := rhs.(*ast.Ident); isId && id.Name == variadic {
+						ok = false // aliasing the caller's slice
+					}
+					if sl, isSl := rhs.(*ast.SliceExpr); isSl && exprString(sl.X) == variadic {
+						ok = false
+					}
+					if ce, isCall := rhs.(*ast.CallExpr); isCall {
+						if id, isId := ce.Fun.(*ast.Ident); isId && id.Name == "append" && len(ce.Args) > 0 {
+							if !fresh[exprString(ce.Args[0])] {
+								ok = false // appending onto something that is not this function's own slice
+							}
+						}
+					}
+				}
+			case *ast.IndexExpr:
+				if exprString(x.X) == variadic {
+					// element writes are caught above; reads are harmless
+				}
+			}
+			return true
+		})
+		// the slice handed to grpc.Dial is a fresh one
+		dialOK := false
+		ast.Inspect(dg.Body, func(n ast.Node) bool {
+			if ce, isCall := n.(*ast.CallExpr); isCall && exprString(ce.Fun) == "grpc.Dial" && len(ce.Args) == 2 && ce.Ellipsis.IsValid() {
+				if fresh[exprString(ce.Args[1])] {
+					dialOK = true
+				}
+			}
+			return true
+		})
+		optsFresh = ok && dialOK
+	} else {
+		f.miss = append(f.miss, "dialGRPCConn")
+	}
+	f.lean = append(f.lean, fmt.Sprintf("def grpcDial : GrpcBroker.DialParams := ⟨%s⟩", leanBool(optsFresh)))
+	f.set("grpcDial", map[string]interface{}{"optsFresh": optsFresh})
 	// GRPCServerMuxer.Accept: the hand-off `acceptCh <- acceptResult{…}` is a plain send statement (not a select arm)
 	handoffBlocks := false
 	if acc := p.fn("GRPCServerMuxer", "Accept"); acc != nil {
